@@ -274,7 +274,8 @@ def preprocess_signature(entry):
         for g, lab in gs:
             g = re.sub(r'param#%d\b' % dp, 'difficulty', g) if dp else g
             # guards introduced by `?` on the conversion result are the same in every entry
-            if 'Try>::branch' in g:
+            # (only the test of the `?` itself: a later guard whose ARGUMENT is the converted map — `helper(&map)` — mentions the branch too)
+            if 'Try>::branch' in g and g.startswith('discr(') and lab in ('Continue', 'Break'):
                 continue
             # ... and so is the same test written by hand (`match map.convert_ref(..) { Ok(map) => map, Err(e) => return Err(e) }`): a
             # preprocessor of the converted map exists on the Ok side only
